@@ -74,8 +74,9 @@ Wrap(x, m) == ((x - 1) % m) + 1                 \* x >= 1 - m
 Stride(m) == IF m > 40 THEN 31 ELSE 3
 B2I(b) == IF b THEN 1 ELSE 0
 
-(* smallest divisor >= 3 of m (0: none up to 12): block count of the product family *)
-KOf(m) == IF \E k \in 3..12 : m % k = 0 THEN CHOOSE k \in 3..12 : m % k = 0 /\ \A l \in 3..(k - 1) : m % l # 0 ELSE 0
+(* block count of the product family: the smallest of 3, 4, 5, 7, 11 that divides m (0: none) *)
+KOf(m) == IF m % 3 = 0 THEN 3 ELSE IF m % 4 = 0 THEN 4 ELSE IF m % 5 = 0 THEN 5
+          ELSE IF m % 7 = 0 THEN 7 ELSE IF m % 11 = 0 THEN 11 ELSE 0
 
 (* ---- the families: support of a row, support of a column, entry, weight --------------------- *)
 (* symmetric link strengths of the reversible families on m states *)
@@ -188,18 +189,18 @@ CallerUnchanged == [][C' = C /\ n' = n /\ fam' = fam /\ pat' = pat]_vars
 
 (* the declared supports are sound: a column support lists exactly the rows whose support contains the column,
    every count is non-negative, the links of the reversible families are symmetric *)
-SupportsOK == \A i \in Idx :
+SupportsOK == pc = "prior" => \A i \in Idx :
    /\ Sup(i) \subseteq Idx /\ In(i) \subseteq Idx
    /\ \A j \in Sup(i) : i \in In(j) /\ Cnt(i, j) >= 0
    /\ \A j \in In(i) : i \in Sup(j)
    /\ Reversible => \A j \in Sup(i) : Link(fam, n, i, j) = Link(fam, n, j, i)
 (* n <= DenseMax: nothing outside the supports *)
-SupportsComplete == n <= DenseMax => \A i, j \in Idx : (j \notin Sup(i) \/ i \notin In(j)) => Cnt(i, j) = 0
+SupportsComplete == (pc = "prior" /\ n <= DenseMax) => \A i, j \in Idx : (j \notin Sup(i) \/ i \notin In(j)) => Cnt(i, j) = 0
 
 (* every state has outgoing counts and the chain is irreducible: a closed walk through all states has
    positive counts (bd: up and down the chain; ring, chord: around the cycle; hub: out and back;
    prod: inside a block via the hub, block to block at the hub states; all its diagonal entries are positive) *)
-Irreducible ==
+Irreducible == pc = "prior" =>
   CASE fam = "bd"    -> \A i \in 1..(n - 1) : Cnt(i, i + 1) > 0 /\ Cnt(i + 1, i) > 0
     [] fam \in {"ring", "chord"} -> \A i \in Idx : Cnt(i, Wrap(i + 1, n)) > 0
     [] fam = "hub"   -> \A i \in 2..n : Cnt(1, i) > 0 /\ Cnt(i, 1) > 0
